@@ -227,6 +227,28 @@ def kruskal_all_edges(facts):
             o.check(b, "queue#%d" % n, t["line"], skips is False, "no path through the loop body avoids the push",
                     "some edges are not queued (a path through the body of the edge loop returns to the loop head without pushing): when the skipped edge is the "
                     "lightest of several parallel edges the spanning forest is not minimal")
+        # the same loop written as `edges.for_each(|edge| heap.push(..))`: the closure body is the loop body, and nothing may filter the iterator before it
+        for cb in facts.with_closures(b):
+            if cb is b:
+                continue
+            pushes = [i for i, t in cb.calls() if last_seg(t["f"]["path"]) == "push" and "BinaryHeap" in norm_path(t["f"]["path"])]
+            if not pushes:
+                continue
+            users = [(i, t) for i, t in b.calls() if last_seg(t["f"]["path"]) in ("for_each", "try_for_each", "fold", "try_fold", "map") and
+                     any(isinstance(s_, tuple) and s_[0] == "agg" and len(s_) > 1 and s_[1] == cb.path for a_ in t["args"] for s_ in walk_expr(b.expr(a_, 6)))]
+            if not users:
+                continue
+            n += 1
+            rets = {i for i, bl in enumerate(cb.blocks) if bl["term"]["k"] == "return" and not bl["cleanup"]}
+            skips = bool(reach(cb, 0, avoid=set(pushes)) & rets)
+            filt = []
+            for (ui, ut) in users:
+                for s_ in walk_expr(b.expr(ut["args"][0], 10)):
+                    if isinstance(s_, tuple) and s_[0] == "call" and last_seg(s_[1]["path"]) in ("filter", "filter_map", "skip", "skip_while", "take", "take_while", "step_by"):
+                        filt.append(last_seg(s_[1]["path"]))
+            o.check(cb, "queue#%d" % n, cb.line, not skips and not filt, "the closure handed to for_each pushes on every path and the iterator is unfiltered",
+                    "some edges are not queued (%s): when the skipped edge is the lightest of several parallel edges the spanning forest is not minimal" %
+                    ("the iterator is filtered by %s" % filt[:2] if filt else "a path through the closure returns without pushing"))
         o.check(b, "queues", b.line, n >= 1, "%d queueing site(s)" % n, "edge queue push not found in min_spanning_tree")
     o.r.floor = 2
     return o.r
@@ -284,7 +306,8 @@ def fixpoint_flag_monotone(facts):
             # the reset must sit in a loop, and the flag must be branched on
             in_loop = any(i in reach(b, s2) for (i, _) in falses for s2 in b.cfg()[0][i])
             tested = any(bl["term"]["k"] == "switch" and op_local(bl["term"]["d"]) is not None and
-                         (op_local(bl["term"]["d"]) == l or ("local", l) in leaves(b.expr(bl["term"]["d"], 4))) for bl in b.blocks if not bl["cleanup"])
+                         (op_local(bl["term"]["d"]) == l or ("local", l) in leaves(b.expr(bl["term"]["d"], 10)) or ("local", l) in leaves(b.expr_at(bl["term"]["d"], bi_, None, 10)))
+                         for bi_, bl in enumerate(b.blocks) if not bl["cleanup"])
             if not in_loop or not tested:
                 continue
             n += 1
